@@ -230,9 +230,9 @@ func (e *walkErr) Error() string { return e.key + " " + e.hash + " " + e.msg }
 type walker struct {
 	v      view
 	rcMode bool
-	occ    map[string]int         // occurrences per hash in the unfolded trie
-	cont   map[string][]byte      // key (bytes of the nibble path) -> value
-	cells  map[string]cell        // visited cells
+	occ    map[string]int    // occurrences per hash in the unfolded trie
+	cont   map[string][]byte // key (bytes of the nibble path) -> value
+	cells  map[string]cell   // visited cells
 	check  func(h string, c cell) *walkErr
 	steps  int
 }
